@@ -197,20 +197,24 @@ def compare_export(out_path, src, sel_idx, feats, filtered, case, tags):
                     f"{ridx.tolist()}", feat=feat)
         # logs and tables
         if case.get("logs") and src.has_logs:
+            # "carried over": a log / table of the output whose name
+            # contains the source name (dclab prefixes "src_") holds
+            # exactly the source's lines / columns
             for name, lines in src.logs.items():
-                key = f"src_{name}"
-                got = None
-                if key in h5.get("logs", {}):
-                    got = [li.decode("utf-8") if isinstance(li, bytes) else li
-                           for li in h5["logs"][key][:]]
-                if got != lines:
-                    bad("wrong-logs", f"{key}: {got} != {lines}")
+                cands = [k for k in h5.get("logs", {}) if name in k]
+                got = [[li.decode("utf-8") if isinstance(li, bytes) else li
+                        for li in h5["logs"][k][:]] for k in cands]
+                if lines not in got:
+                    bad("wrong-logs", f"{name}: {dict(zip(cands, got))} "
+                        f"does not contain {lines}")
             for name, t in src.tables.items():
-                key = f"src_{name}"
-                if key not in h5.get("tables", {}) or not all(
-                        gen.arrays_equal(np.ravel(h5["tables"][key][c]), t[c])
-                        for c in t.dtype.names):
-                    bad("wrong-tables", key)
+                cands = [k for k in h5.get("tables", {}) if name in k]
+                if not any(
+                        h5["tables"][k].dtype.names == t.dtype.names and all(
+                            gen.arrays_equal(np.ravel(h5["tables"][k][c]),
+                                             t[c]) for c in t.dtype.names)
+                        for k in cands):
+                    bad("wrong-tables", f"{name}: candidates {cands}")
     now = src.snapshot()
     if repr(now) != repr(src.cfg0):
         diff = [f"{sec}:{k}" for sec in src.cfg0 for k in src.cfg0[sec]
